@@ -5,7 +5,7 @@
 (***************************************************************************)
 EXTENDS Format
 
-WideSinkNames == {"writef_wostream", "writef_u16ostream", "writef_u32ostream"}
+WideSinkNames == {"writef_wostream", "writef_wostream_w", "writef_u16ostream", "writef_u32ostream"}
 
 (* D14: the wide ostream sinks transcode every append() chunk separately    *)
 (* and cast append_char() units, so their output differs from the          *)
